@@ -27,9 +27,12 @@ def run(ctx):
                        note="seeded design bug must violate " + inv)
     exe = ctx.harness("conc_drv", ["cache/conc_drv.cpp"])
     if q:
-        runs = [(2, 1200, 0, 3, 2), (4, 600, 2, 4, 2), (8, 300, 1, 3, 2), (4, 600, 0, 2, 2), (3, 600, 3, 8, 1)]
+        runs = [(2, 1200, 0, 3, 2), (4, 600, 2, 4, 2), (8, 300, 1, 3, 2), (4, 600, 0, 2, 2), (3, 600, 3, 8, 1),
+                # growth beyond the listed quantifier: forked PROCESSES on the process-shared cache (shared sequence counter)
+                (4, 400, 2, 4, 2, "proc"), (3, 400, 0, 2, 2, "proc")]
     else:
         runs = [(t, n, lim, names, 3) for t in (2, 3, 4, 8) for (n, lim, names) in ((4000, 0, 3), (3000, 2, 4), (3000, 1, 2), (3000, 4, 8))]
+        runs += [(t, 1500, lim, names, 3, "proc") for t in (2, 4, 8) for (lim, names) in ((0, 3), (2, 4), (1, 2))]
     n = 0
     for spec in runs:
         n += 1
@@ -51,7 +54,7 @@ def run(ctx):
         with open(srt) as f:
             lines = f.readlines()
         if n == 1:
-            ctx.sample({"driver(threads,ops,limit,names,rounds)": list(spec), "first_events": [x.strip() for x in lines[:14]]})
+            ctx.sample({"driver(threads,ops,limit,names,rounds[,proc])": list(spec), "first_events": [x.strip() for x in lines[:14]]})
         for ln in lines[:20000]:
             ctx.seen(ln.split('"e":', 1)[1][:50])
         rej = ctx.validate("Cache/ConcTrace.tla", "ConcTrace.cfg", srt, dfs=True, timeout=900)
